@@ -135,6 +135,7 @@ func c09Guarded(at ssa.Instruction, edges []Edge) bool {
 		return false
 	}
 	fn := at.Parent()
+	edges = append(append([]Edge{}, edges...), c09FlagEdges(fn, edges)...)
 	var best *Loop
 	for _, l := range Loops(fn) {
 		if !l.Contains(at) {
@@ -155,6 +156,66 @@ func c09Guarded(at ssa.Instruction, edges []Edge) bool {
 		return !reach(best.Header, 0, at, ct)
 	}
 	return !reach(fn.Blocks[0], 0, at, ct)
+}
+
+// c09FlagEdges: true-edges of Ifs on a boolean flag (phi of constants) that can
+// only be true when one of the guard edges was taken: every `true` flowing into
+// the flag enters from a block that is reachable only through a guard edge.
+// (`found := false; if cond { found = true }; ...; if found { X }`)
+func c09FlagEdges(fn *ssa.Function, guards []Edge) []Edge {
+	ct := newCut().Edges(guards...)
+	var out []Edge
+	for _, i := range Ifs(fn) {
+		cond, t, _ := ifEdges(i)
+		phi, ok := cond.(*ssa.Phi)
+		if !ok {
+			continue
+		}
+		seen := map[*ssa.Phi]bool{}
+		okAll, anyTrue := true, false
+		var walk func(p *ssa.Phi)
+		walk = func(p *ssa.Phi) {
+			if seen[p] {
+				return
+			}
+			seen[p] = true
+			for k, e := range p.Edges {
+				switch u := e.(type) {
+				case *ssa.Phi:
+					walk(u)
+				case *ssa.Const:
+					if u.Value != nil && u.Value.String() == "true" {
+						anyTrue = true
+						pred := p.Block().Preds[k]
+						if reach(fn.Blocks[0], 0, pred.Instrs[len(pred.Instrs)-1], ct) {
+							okAll = false
+						}
+					}
+				default:
+					okAll = false
+				}
+			}
+		}
+		walk(phi)
+		if okAll && anyTrue {
+			out = append(out, t)
+		}
+	}
+	return out
+}
+
+// c09DigestString: v is the string form of obj's Digest (string(d), d.String()).
+func c09DigestString(obj c09DescObj, v ssa.Value) bool {
+	if obj.fieldOf(v, "Digest") {
+		return true
+	}
+	for _, r := range Roots(v) {
+		call, ok := r.(*ssa.Call)
+		if !ok || CalleeName(call) != "(digest.Digest).String" || !obj.fieldOf(call.Call.Args[0], "Digest") {
+			return false
+		}
+	}
+	return true
 }
 
 // c09AppendedElems: for `append(dst, xs...)`, the element values stored into a
@@ -202,10 +263,10 @@ func c09ElemOf(v ssa.Value, slice map[ssa.Value]bool) bool {
 
 // c09StoreHelpers locates the unexported helpers of oci.Store by role.
 type c09Helpers struct {
-	del, gc           *ssa.Function
-	deleteOne         *ssa.Function // calls graph.Memory.Remove and Storage.Delete
-	isTagged          *ssa.Function // bool helper calling resolver.Memory.TagSet
-	gcIndex           *ssa.Function // callee of GC that replaces s.tagResolver
+	del, gc   *ssa.Function
+	deleteOne *ssa.Function // calls graph.Memory.Remove and Storage.Delete
+	isTagged  *ssa.Function // bool helper calling resolver.Memory.TagSet
+	gcIndex   *ssa.Function // callee of GC that replaces s.tagResolver
 }
 
 func c09FindHelpers(c *Ctx, rule string) *c09Helpers {
@@ -357,32 +418,87 @@ func c09R3Delete(c *Ctx, R3 string, h *c09Helpers) {
 			continue
 		}
 		n++
-		// the key must be the range key of a Next whose value is compared with target
-		var nx ssa.Value
-		for _, r := range Roots(args[1]) {
-			if e, ok := r.(*ssa.Extract); ok && e.Index == 1 {
-				if _, isNext := e.Tuple.(*ssa.Next); isNext {
-					nx = e.Tuple
-				}
-			}
+		// the reference is the key of a range over the resolver map — directly, or
+		// collected first into a slice that is then ranged over
+		type keySite struct {
+			at  ssa.Instruction
+			key ssa.Value
 		}
-		if nx == nil {
-			c.Undecided(R3, fn+"|untag-only-equal-descriptors", uc.Pos(), "the reference passed to Untag is not the key of a range over the resolver map: shape not recognised")
-			continue
-		}
-		eq, _, _ := CallTests(f, c09nEqual, func(x *ssa.Call) bool {
-			a, b := x.Call.Args[0], x.Call.Args[1]
-			isVal := func(v ssa.Value) bool {
-				for _, r := range Roots(v) {
-					if e, ok := r.(*ssa.Extract); !ok || e.Index != 2 || e.Tuple != nx {
-						return false
+		sites := []keySite{{uc.(ssa.Instruction), args[1]}}
+		if rs := Roots(args[1]); len(rs) == 1 {
+			if ld, ok := rs[0].(*ssa.UnOp); ok && ld.Op == token.MUL {
+				if ia, ok := ld.X.(*ssa.IndexAddr); ok {
+					sites = nil
+					acc := map[ssa.Value]bool{}
+					var grow func(v ssa.Value)
+					grow = func(v ssa.Value) {
+						if v == nil || acc[v] {
+							return
+						}
+						acc[v] = true
+						switch u := v.(type) {
+						case *ssa.Phi:
+							for _, e := range u.Edges {
+								grow(e)
+							}
+						case *ssa.Call:
+							if CalleeName(u) == "builtin:append" {
+								grow(u.Call.Args[0])
+							}
+						}
+					}
+					grow(ia.X)
+					for _, ap := range CallsTo(f, "builtin:append") {
+						if acc[ap.Value()] {
+							elems, whole := c09AppendedElems(ap)
+							if whole != nil {
+								sites = append(sites, keySite{ap.(ssa.Instruction), nil})
+							}
+							for _, e := range elems {
+								sites = append(sites, keySite{ap.(ssa.Instruction), e})
+							}
+						}
 					}
 				}
-				return true
 			}
-			return (isVal(a) && c09SameKey(b, target)) || (isVal(b) && c09SameKey(a, target))
-		})
-		ok := c09Guarded(uc.(ssa.Instruction), eq)
+		}
+		okAll, undecided := len(sites) > 0, false
+		for _, ks := range sites {
+			var nx ssa.Value
+			if ks.key != nil {
+				for _, r := range Roots(ks.key) {
+					if e, ok := r.(*ssa.Extract); ok && e.Index == 1 {
+						if _, isNext := e.Tuple.(*ssa.Next); isNext {
+							nx = e.Tuple
+						}
+					}
+				}
+			}
+			if nx == nil {
+				undecided = true
+				continue
+			}
+			eq, _, _ := CallTests(f, c09nEqual, func(x *ssa.Call) bool {
+				a, b := x.Call.Args[0], x.Call.Args[1]
+				isVal := func(v ssa.Value) bool {
+					for _, r := range Roots(v) {
+						if e, ok := r.(*ssa.Extract); !ok || e.Index != 2 || e.Tuple != nx {
+							return false
+						}
+					}
+					return true
+				}
+				return (isVal(a) && c09SameKey(b, target)) || (isVal(b) && c09SameKey(a, target))
+			})
+			if !c09Guarded(ks.at, eq) {
+				okAll = false
+			}
+		}
+		if undecided {
+			c.Undecided(R3, fn+"|untag-only-equal-descriptors", uc.Pos(), "the reference passed to Untag is not the key of a range over the resolver map (directly or via a collected slice): shape not recognised")
+			continue
+		}
+		ok := okAll
 		c.Check(R3, fn+"|untag-only-equal-descriptors", uc.Pos(), ok, ifelse(ok, "Untag(ref) is reached only on the content.Equal(resolver[ref], target) edge", "a reference is untagged without content.Equal(resolver[ref], target): another node's tag can be removed"))
 	}
 	if n == 0 {
@@ -484,12 +600,12 @@ func c09R3IsTagged(c *Ctx, R3 string, h *c09Helpers) {
 	set := Aliases(ts[0].Value())
 	desc := c09DescObjOf(ts[0].Common().Args[1])
 	selfT, selfF, _ := CallTests(f, "(~/internal/container/set.Set[T]).Contains", func(x *ssa.Call) bool {
-		return set[x.Call.Args[0]] && desc.fieldOf(x.Call.Args[1], "Digest")
+		return set[x.Call.Args[0]] && c09DigestString(desc, x.Call.Args[1])
 	})
 	if len(selfT) == 0 {
 		// also accept a comma-ok lookup  _, ok := tagSet[string(desc.Digest)]
 		AllInstrs(f, func(in ssa.Instruction) {
-			if lk, ok := in.(*ssa.Lookup); ok && lk.CommaOk && set[lk.X] && desc.fieldOf(lk.Index, "Digest") {
+			if lk, ok := in.(*ssa.Lookup); ok && lk.CommaOk && set[lk.X] && c09DigestString(desc, lk.Index) {
 				for _, r := range *lk.Referrers() {
 					if ex, ok := r.(*ssa.Extract); ok && ex.Index == 1 {
 						te, fe := BoolTests(f, Aliases(ex))
@@ -781,6 +897,10 @@ func c09R4GcIndex(c *Ctx, R4 string, h *c09Helpers) {
 				if !c09Guarded(t, exT) {
 					ok = false
 				}
+			}
+			if !ok && len(exT) > 0 {
+				c.Undecided(R4, fn+"|pass2-keeps-only-referrers-of-kept-nodes", blockPos(l.Header), "the second pass consults newGraph.Exists but the rule cannot show that an untagged entry is kept only when it answered true (condition shape not recognised)")
+				continue
 			}
 			c.Check(R4, fn+"|pass2-keeps-only-referrers-of-kept-nodes", blockPos(l.Header), ok, ifelse(ok,
 				"an untagged entry is re-tagged/re-indexed only on the newGraph.Exists(subject) edge",
